@@ -412,7 +412,7 @@ Proof.
     apply existsb_exists in E as ([k s] & Hin & Hle). simpl in Hle. apply Nat.leb_le in Hle.
     rewrite forallb_forall in Ha. specialize (Ha _ Hin). unfold argv_use_ok in Ha. simpl in Ha.
     apply existsb_exists in Ha as (p & Hp & Hc). apply existsb_exists in Hc as (c & Hc & Hk).
-    destruct c as [m| |]; simpl in Hk; try discriminate. apply Nat.ltb_lt in Hk.
+    destruct c as [m| | | |]; simpl in Hk; try discriminate. apply Nat.ltb_lt in Hk.
     pose proof (pre_exit_from_none_argc t argv (t_pre t) p m Epre Hp Hc). lia.
   - cbv zeta. cbn [r_final]. apply run_blocks_no_crash; auto.
 Qed.
